@@ -215,3 +215,45 @@ def run(ck):
     pl = fa.get('ephemeralnet::network::TransportMessage::payload', [])
     ok = len(pl) == 1 and any(rl.nodes[j]['k'] == 'DeclRefExpr' and rl.nodes[j].get('d') == pt for j in rl.walk(pl[0][0]))
     ck.ob('C14.deliver', 'C14.deliver/plaintext', ok, rl.loc(), 'the delivered message carries the decrypted frame as its payload, unmodified')
+
+    # R-PAIR: the handshake receive timeout never leaks into the session: once read_handshake_payload has set a timeout on the
+    # socket, every way out of it passes a reset to zero (directly or through a local helper that does it)
+    from sa.paths import Cfg as _Cfg
+    rh = P.fn(SM + 'read_handshake_payload') if 'SM' in globals() else P.fn('ephemeralnet::network::SessionManager::read_handshake_payload')
+    ck.touch(rh)
+    sets = [i for i in rh.walk() if (rh.nodes[i].get('callee') or '').endswith('set_recv_timeout')]
+
+    def is_zero_timeout(f, call):
+        a = f.call_args(call)
+        if len(a) < 2:
+            return False
+        for j in f.walk(a[1]):
+            if (f.nodes[j].get('callee') or '').endswith('::zero'):
+                return True
+        return const_value(f, a[1]) == 0
+    acquires = [i for i in sets if not is_zero_timeout(rh, i)]
+    releases = {i for i in sets if is_zero_timeout(rh, i)}
+    helpers = set()
+    for g in P.lambdas_of(rh.q):
+        if any((g.nodes[j].get('callee') or '').endswith('set_recv_timeout') and is_zero_timeout(g, j) for j in g.walk()) and \
+                not any(g.nodes[j]['k'] == 'IfStmt' for j in g.walk()):
+            helpers.add(g.q)
+    for i in rh.walk():
+        if rh.nodes[i].get('callee') in helpers:
+            releases.add(i)
+    ck.floor('C14.timeout', 'receive-timeout settings in read_handshake_payload', len(acquires), 1)
+    cfg_rh = _Cfg.of(rh)
+    for n_, a in enumerate(acquires):
+        wit = cfg_rh.must_pass(a, lambda e: e in releases or any(rh.is_in(x, e) for x in releases) and rh.nodes[e]['k'] in ('ExprWithCleanups', 'ReturnStmt'))
+        # the acquire's own failure branch (`if (!set_recv_timeout(...)) return false;`) has nothing to undo
+        if wit is not None:
+            par = rh.parent(a)
+            while par is not None and rh.nodes[par]['k'] in ('UnaryOperator', 'ImplicitCastExpr', 'ParenExpr', 'BinaryOperator'):
+                par = rh.parent(par)
+            if par is not None and rh.nodes[par]['k'] == 'IfStmt':
+                then = rh.nodes[par]['then']
+                rest = cfg_rh.must_pass_from(cfg_rh.locate(rh.nodes[par]['cond']), lambda e: e in releases or any(rh.is_in(x, e) for x in releases) and rh.nodes[e]['k'] in ('ExprWithCleanups', 'ReturnStmt'),
+                                             stop_at=lambda e: rh.is_in(e, then))
+                wit = rest
+        ck.ob('C14.timeout', 'C14.timeout/reset-on-every-exit#%d' % (n_ + 1), wit is None, rh.loc(a),
+              'after read_handshake_payload arms the receive timeout, every return resets it to zero (an accepted session must not inherit the 2 s handshake timeout)', wit)
